@@ -60,6 +60,11 @@ class PteraNameError(NameError):
     def __init__(self, varname, function):
         self.varname = varname
         self.function = function
+        # The information is recorded now: the function may not be
+        # instrumented anymore when the error is looked at
+        self._info = (getattr(function, "__ptera_info__", None) or {}).get(
+            varname, {}
+        )
         prov = self.info().get("provenance", None)
         if prov == "external":
             msg = (
@@ -77,7 +82,7 @@ class PteraNameError(NameError):
 
     def info(self):
         """Return information about the missing variable."""
-        return self.function.__ptera_info__[self.varname]
+        return self._info
 
 
 def name_error(varname, function, pop_frames=1):
